@@ -217,6 +217,7 @@ def run : Prog → Option Path → KSt → CallRes × KSt × List Op
   | .buildFile path cmp fname args kwargs body k, t, s =>
     match Spec.bfSetup s.sp path with
     | .error e =>
+      let s := if e = .os .other then liftSp s fun sp => { sp with failFiles := sp.failFiles.erase path } else s
       let (r, s', ops) := run (k (.error e)) t s
       (r, s', .buildFile path cmp fname args kwargs [] .null .null true true :: ops)
     | .ok (sp1, made) =>
@@ -248,6 +249,10 @@ def run : Prog → Option Path → KSt → CallRes × KSt × List Op
     let key := subKey fname args kwargs
     if s.sp.claimedSubs.any (heq key) then
       let (r, s', ops) := run (k (.error (.runtime .dupSub))) t s
+      (r, s', .subbuild fname args kwargs [] .null true true :: ops)
+    else if s.sp.failSubs.any (heq key) then
+      let s := liftSp s fun sp => { sp with failSubs := sp.failSubs.filter (fun x => !heq key x) }
+      let (r, s', ops) := run (k (.error (.os .other))) t s
       (r, s', .subbuild fname args kwargs [] .null true true :: ops)
     else
       let s1 := liftSp s fun sp => { sp with claimedSubs := key :: sp.claimedSubs }
@@ -306,7 +311,7 @@ def isComplexRegistered : Op → Bool
 
 /-- `FileBuilder.build_versioned` -/
 def build (w : KWorld) (cf : Path) (buildName : String) (versions : List (String × Json))
-    (root : Prog) : KOut :=
+    (root : Prog) (failFiles : List Path := []) (failSubs : List H := []) (abort : Nat := 0) : KOut :=
   let refuse (e : Exc) : KOut := { res := .error e, world := w }
   let go (old : CacheRec) : KOut :=
     let oldRec := old.toRec
@@ -315,14 +320,16 @@ def build (w : KWorld) (cf : Path) (buildName : String) (versions : List (String
       match w.fs.get p with
       | some (.file b m) => some (p, .file b m)
       | _ => none
-    let sp0 : SpecSt := { fs := fs0, cacheFile := cf, dirSize := w.dirSize, clock := w.clock }
+    let sp0 : SpecSt := { fs := fs0, cacheFile := cf, dirSize := w.dirSize, clock := w.clock,
+                          failFiles := failFiles, failSubs := failSubs }
     let rolledBack : FS := Spec.mkdirs w.fs (old.createdDirs.mergeSort (fun a b => a.length ≤ b.length))
-    match Spec.dirsToMake (Spec.visible sp0) cf cf.dropLast with
+    match (if abort = 1 then .error .other else Spec.dirsToMake (Spec.visible sp0) cf cf.dropLast) with
     | .error e => { res := .error (.os e), world := { w with fs := rolledBack } }
     | .ok cds =>
       let s1 : KSt :=
         { sp := { sp0 with fs := Spec.mkdirs sp0.fs cds }, shelf := shelf, old := old, newVersions := versions }
-      let (r, s2, ops) := run root none s1
+      let (r0, s2, ops) := run root none s1
+      let r : CallRes := match r0 with | .ok v => if abort = 2 then .error (.os .other) else .ok v | e => e
       match r with
       | .error e => { res := .error e, world := { w with fs := rolledBack, clock := s2.sp.clock },
                       invLog := s2.sp.invLog.reverse }
